@@ -707,6 +707,69 @@ benign("c15-same-root-positive", ["C15", "C17"], [(WK, ROOTCHK, """        if st
             raise WalkError("%r and %r are not part of the same tree." % (start, end))
 """)])
 
+# ------------------------------------------------------------------ C09
+RD = "anytree/render.py"
+ITEMS = "        items = [style.vertical if cont else style.empty for cont in continues]\n"
+seeded("c09-swap-vertical-empty", ["C09"], [(RD, ITEMS, "        items = [style.empty if cont else style.vertical for cont in continues]\n")], ["V2"])
+seeded("c09-swap-cont-end", ["C09"], [(RD, "        branch = style.cont if continues[-1] else style.end\n",
+                                       "        branch = style.end if continues[-1] else style.cont\n")], ["V2"])
+seeded("c09-fill-without-last", ["C09"], [(RD, '        fill = "".join(items)\n', '        fill = "".join(items[:-1])\n')], ["V2"])
+seeded("c09-pre-with-last-bar", ["C09"], [(RD, '        indent = "".join(items[:-1])\n', '        indent = "".join(items)\n')], ["V2"])
+seeded("c09-pre-uses-vertical-for-branch", ["C09"], [(RD, "        branch = style.cont if continues[-1] else style.end\n",
+                                                      "        branch = style.vertical if continues[-1] else style.end\n")], ["V2"])
+seeded("c09-continues-is-last", ["C09"], [(RD, "continues + (not is_last,)", "continues + (is_last,)")], ["V1"])
+seeded("c09-continues-replaced", ["C09"], [(RD, "continues + (not is_last,)", "(not is_last,)")], ["V1"])
+seeded("c09-own-row-after-children", ["C09"], [(RD, """        yield RenderTree.__item(node, continues, self.style)
+        level += 1
+""", """        level += 1
+"""), (RD, """                    for grandchild in self.__next(child, continues + (not is_last,), level=level):
+                        yield grandchild
+""", """                    for grandchild in self.__next(child, continues + (not is_last,), level=level):
+                        yield grandchild
+        yield RenderTree.__item(node, continues, self.style)
+""")], ["V1"])
+seeded("c09-depth-guard-le", ["C09"], [(RD, "        if self.maxlevel is None or level < self.maxlevel:\n            children = node.children\n",
+                                        "        if self.maxlevel is None or level <= self.maxlevel:\n            children = node.children\n")], ["V1"])
+seeded("c09-level-not-incremented", ["C09"], [(RD, "        yield RenderTree.__item(node, continues, self.style)\n        level += 1\n",
+                                               "        yield RenderTree.__item(node, continues, self.style)\n")], ["V1"])
+seeded("c09-maxlevel-truthiness", ["C09"], [(RD, "        if self.maxlevel is None or level < self.maxlevel:\n            children = node.children\n",
+                                             "        if not self.maxlevel or level < self.maxlevel:\n            children = node.children\n")])
+seeded("c09-childiter-dropped", ["C09"], [(RD, "                children = self.childiter(children)\n", "")], ["V1"])
+seeded("c09-children-reversed", ["C09"], [(RD, "                children = self.childiter(children)\n",
+                                           "                children = list(reversed(self.childiter(children)))\n")], ["V1"])
+seeded("c09-root-row-for-depth-one", ["C09"], [(RD, "        if not continues:\n            return Row", "        if len(continues) <= 1:\n            return Row")], ["V2"])
+seeded("c09-row-node-wrong", ["C09"], [(RD, "        return Row(pre, fill, node)\n", "        return Row(pre, fill, continues)\n")], ["V2"])
+seeded("c09-str-first-line-fill", ["C09"], [(RD, """    yield "%s%s" % (row.pre, lines[0])
+    for line in lines[1:]:""", """    yield "%s%s" % (row.fill, lines[0])
+    for line in lines[1:]:""")], ["V3"])
+seeded("c09-str-further-lines-pre", ["C09"], [(RD, """    for line in lines[1:]:
+        yield "%s%s" % (row.fill, line)
+""", """    for line in lines[1:]:
+        yield "%s%s" % (row.pre, line)
+""")], ["V3"])
+seeded("c09-no-line-for-empty-value", ["C09"], [(RD, '        lines = str(attr).splitlines() or [""]\n', "        lines = str(attr).splitlines()\n"),
+                                                 (RD, '        lines = attr or [""]\n', "        lines = attr\n")])
+seeded("c09-iter-starts-with-nonempty", ["C09"], [(RD, "        return self.__next(self.node, tuple())\n", "        return self.__next(self.node, (False,))\n")], ["V1"])
+benign("c09-items-generator", ["C09"], [(RD, ITEMS, "        items = list(style.vertical if cont else style.empty for cont in continues)\n")])
+benign("c09-negated-element-test", ["C09"], [(RD, ITEMS, "        items = [style.empty if not cont else style.vertical for cont in continues]\n")])
+benign("c09-indent-from-sliced-continues", ["C09"], [(RD, '        indent = "".join(items[:-1])\n',
+                                                      '        indent = "".join(style.vertical if cont else style.empty for cont in continues[:-1])\n')])
+benign("c09-level-in-call", ["C09"], [(RD, """        level += 1
+        if self.maxlevel is None or level < self.maxlevel:
+""", """        if self.maxlevel is None or level + 1 < self.maxlevel:
+"""), (RD, "continues + (not is_last,), level=level):", "continues + (not is_last,), level=level + 1):")])
+benign("c09-branch-if-statement", ["C09"], [(RD, "        branch = style.cont if continues[-1] else style.end\n", """        if continues[-1]:
+            branch = style.cont
+        else:
+            branch = style.end
+""")])
+benign("c09-row-keywords", ["C09"], [(RD, "        return Row(pre, fill, node)\n", "        return Row(pre=pre, fill=fill, node=node)\n")])
+benign("c09-inline-pre", ["C09"], [(RD, """        pre = indent + branch
+        fill = "".join(items)
+        return Row(pre, fill, node)
+""", """        return Row(indent + branch, "".join(items), node)
+""")])
+
 # ---------------------------------------------------------------- patch-based corpus
 # benign/<id>/patch.diff : behaviour-preserving refactorings written by independent authors
 #                          (must stay silent for every check)
@@ -717,7 +780,7 @@ import json as _json
 import os as _os
 
 _ROOT = _os.path.dirname(_os.path.dirname(_os.path.dirname(_os.path.abspath(__file__))))
-ALL_CHECKS = ["C01", "C02", "C03", "C04", "C05", "C06", "C07", "C08", "C10", "C11", "C12", "C13", "C14", "C15", "C16", "C17", "C18", "C19", "C20"]
+ALL_CHECKS = ["C01", "C02", "C03", "C04", "C05", "C06", "C07", "C08", "C09", "C10", "C11", "C12", "C13", "C14", "C15", "C16", "C17", "C18", "C19", "C20"]
 for _d in sorted(_glob.glob(_os.path.join(_ROOT, "benign", "*"))):
     _p = _os.path.join(_d, "patch.diff")
     if _os.path.exists(_p):
